@@ -350,3 +350,171 @@ theorem getNBest_one (d : Votes) :
       simp [hd, sortDesc, insertDesc, hxt]
 
 end VL.Appr
+
+namespace VL.Appr
+open VL
+
+/-- the table one SPAV round ranks (`round_votes` after the `del`s) -/
+def roundTable (votes : Profile) (elected : List Cand) : Votes :=
+  (roundVotes votes elected).filter (fun p => !(elected.contains p.1))
+
+/-- the candidates still standing -/
+def standing (votes : Profile) (elected : List Cand) : List Cand :=
+  (allCands votes).filter (fun c => !(elected.contains c))
+
+theorem roundTable_nodup (votes : Profile) (elected : List Cand) : (keys (roundTable votes elected)).Nodup := by
+  unfold roundTable keys
+  exact ((List.filter_sublist).map _).nodup (roundVotes_nodup votes elected)
+
+theorem roundTable_val {votes : Profile} (hwf : WF votes) (elected : List Cand) {p : Cand × Rat}
+    (hp : p ∈ roundTable votes elected) : p.2 = reweighted votes elected p.1 := by
+  have hp' : p ∈ roundVotes votes elected := (List.mem_filter.mp hp).1
+  rw [← roundVotes_getD hwf, getD_of_mem (roundVotes_nodup votes elected) hp']
+
+theorem roundTable_mem_keys (votes : Profile) (elected : List Cand) (c : Cand) :
+    c ∈ keys (roundTable votes elected) ↔ c ∈ standing votes elected := by
+  unfold roundTable standing keys
+  rw [List.mem_map, List.mem_filter, ← roundVotes_mem_keys votes elected]
+  constructor
+  · rintro ⟨p, hp, rfl⟩
+    have := List.mem_filter.mp hp
+    exact ⟨List.mem_map.mpr ⟨p, this.1, rfl⟩, this.2⟩
+  · rintro ⟨h1, h2⟩
+    obtain ⟨p, hp, rfl⟩ := List.mem_map.mp h1
+    exact ⟨p, List.mem_filter.mpr ⟨hp, h2⟩, rfl⟩
+
+theorem standing_nodup (votes : Profile) (elected : List Cand) : (standing votes elected).Nodup :=
+  (allCands_nodup votes).filter _
+
+/-- what one SPAV round sees, in terms of the definition -/
+theorem spav_round {votes : Profile} (hwf : WF votes) (elected : List Cand) :
+    let rest := standing votes elected
+    let ismax := fun c => rest.all (fun d => decide (reweighted votes elected d ≤ reweighted votes elected c))
+    (rest = [] ∧ getNBest (roundTable votes elected) 1 = []) ∨
+    (∃ c, rest ≠ [] ∧ rest.filter ismax = [c] ∧ getNBest (roundTable votes elected) 1 = [Slot.cand c]) ∨
+    (rest ≠ [] ∧ (∀ c, rest.filter ismax ≠ [c]) ∧ ∃ T, getNBest (roundTable votes elected) 1 = [Slot.tie T]) := by
+  intro rest ismax
+  set rv := roundTable votes elected with hrv
+  have hkeys := roundTable_mem_keys votes elected
+  have hknd := roundTable_nodup votes elected
+  have hrvnd : rv.Nodup := List.Nodup.of_map _ hknd
+  have hrestnd := standing_nodup votes elected
+  have hval : ∀ p ∈ rv, p.2 = reweighted votes elected p.1 := fun p hp => roundTable_val hwf elected hp
+  rw [getNBest_one rv]
+  by_cases hempty : rv = []
+  · left
+    refine ⟨?_, by rw [hempty]⟩
+    apply List.eq_nil_iff_forall_not_mem.mpr
+    intro c hc
+    have := (hkeys c).mpr hc
+    rw [← hrv, hempty] at this
+    simp [keys] at this
+  · right
+    have hrest_ne : rest ≠ [] := by
+      intro h
+      obtain ⟨p, hp⟩ := List.exists_mem_of_ne_nil _ hempty
+      have : p.1 ∈ rest := (hkeys p.1).mp (List.mem_map.mpr ⟨p, hp, rfl⟩)
+      rw [h] at this; cases this
+    have hmatch : (match rv with
+        | [] => ([] : List Slot)
+        | _ => match rv.filter (fun (p : Cand × Rat) => rv.all (fun q => decide (q.2 ≤ p.2))) with
+          | [p] => [Slot.cand p.1]
+          | mx => [Slot.tie (mx.map (fun x => x.1))]) =
+        (match rv.filter (fun (p : Cand × Rat) => rv.all (fun q => decide (q.2 ≤ p.2))) with
+          | [p] => [Slot.cand p.1]
+          | mx => [Slot.tie (mx.map (fun x => x.1))]) := by
+      cases hh : rv with
+      | nil => exact absurd hh hempty
+      | cons _ _ => rfl
+    rw [hmatch]
+    -- bridge between the two unique-strict-maximum statements
+    have hA := fun (p : Cand × Rat) => argmax_singleton_iff hrvnd (fun q : Cand × Rat => q.2) (a := p)
+    have hB := fun (c : Cand) => argmax_singleton_iff hrestnd (fun d => reweighted votes elected d) (a := c)
+    have toSpec : ∀ p, rv.filter (fun p => rv.all (fun q => decide (q.2 ≤ p.2))) = [p] → rest.filter ismax = [p.1] := by
+      intro p hp
+      obtain ⟨hpm, hlt⟩ := (hA p).mp hp
+      apply (hB p.1).mpr
+      refine ⟨(hkeys p.1).mp (List.mem_map.mpr ⟨p, hpm, rfl⟩), ?_⟩
+      intro d hd hne
+      obtain ⟨v, hv⟩ := mem_of_mem_keys ((hkeys d).mpr hd)
+      have hqne : (d, v) ≠ p := by
+        intro h; apply hne; rw [← h]
+      have := hlt (d, v) hv hqne
+      rw [hval (d, v) hv, hval p hpm] at this
+      exact this
+    have toModel : ∀ c, rest.filter ismax = [c] →
+        ∃ v, rv.filter (fun p => rv.all (fun q => decide (q.2 ≤ p.2))) = [(c, v)] := by
+      intro c hc
+      obtain ⟨hcm, hlt⟩ := (hB c).mp hc
+      obtain ⟨v, hv⟩ := mem_of_mem_keys ((hkeys c).mpr hcm)
+      refine ⟨v, (hA (c, v)).mpr ⟨hv, ?_⟩⟩
+      intro q hq hne
+      have hq1 : q.1 ≠ c := by
+        intro h
+        apply hne
+        have h1 := getD_of_mem hknd hq
+        have h2 := getD_of_mem hknd hv
+        rw [h] at h1
+        simp only at h2
+        have : q.2 = v := by rw [← h1, ← h2]
+        exact Prod.ext h this
+      have := hlt q.1 ((hkeys q.1).mp (List.mem_map.mpr ⟨q, hq, rfl⟩)) hq1
+      rw [hval q hq, hval (c, v) hv]
+      exact this
+    rcases hm : rv.filter (fun p => rv.all (fun q => decide (q.2 ≤ p.2))) with _ | ⟨a, _ | ⟨b, r⟩⟩
+    · right
+      refine ⟨hrest_ne, ?_, _, rfl⟩
+      intro c hc
+      obtain ⟨v, hv⟩ := toModel c hc
+      rw [hm] at hv; cases hv
+    · left
+      exact ⟨a.1, hrest_ne, toSpec a hm, rfl⟩
+    · right
+      refine ⟨hrest_ne, ?_, _, rfl⟩
+      intro c hc
+      obtain ⟨v, hv⟩ := toModel c hc
+      rw [hm] at hv; cases hv
+
+/-- the code-shaped loop equals the defining recursion, from any state -/
+theorem spavGo_eq_spec {votes : Profile} (hwf : WF votes) :
+    ∀ (k : Nat) (elected : List Cand), spavGo votes k elected = spavSpecGo votes k elected := by
+  intro k
+  induction k with
+  | zero => intro elected; rfl
+  | succ k ih =>
+    intro elected
+    have hround := spav_round hwf elected
+    simp only at hround
+    unfold spavGo spavSpecGo
+    simp only
+    change (match getNBest (roundTable votes elected) 1 with
+      | [] => Except.ok elected
+      | Slot.tie _ :: _ => Except.error Err.notImplemented
+      | Slot.cand c :: _ => spavGo votes k (elected ++ [c])) =
+      (match standing votes elected with
+      | [] => Except.ok elected
+      | _ => match (standing votes elected).filter (fun c => (standing votes elected).all
+            (fun d => decide (reweighted votes elected d ≤ reweighted votes elected c))) with
+        | [c] => spavSpecGo votes k (elected ++ [c])
+        | _ => Except.error Err.notImplemented)
+    rcases hround with ⟨h1, h2⟩ | ⟨c, h1, h2, h3⟩ | ⟨h1, h2, T, h3⟩
+    · rw [h1, h2]
+    · rw [h3, h2]
+      simp only
+      rw [ih]
+      cases hs : standing votes elected with
+      | nil => exact absurd hs h1
+      | cons _ _ => rfl
+    · rw [h3]
+      cases hs : standing votes elected with
+      | nil => exact absurd hs h1
+      | cons x xs =>
+        simp only
+        rw [← hs]
+        rcases hf : (standing votes elected).filter (fun c => (standing votes elected).all
+            (fun d => decide (reweighted votes elected d ≤ reweighted votes elected c))) with _ | ⟨a, _ | ⟨b, r⟩⟩
+        · rfl
+        · exact absurd hf (h2 a)
+        · rfl
+
+end VL.Appr
